@@ -46,7 +46,7 @@ RULE = {
            "record shapes seen, op kinds)",
 }
 FAULT_KINDS = {
-    "C04": ["rng_min", "rng_max", "cost_beyond_hard_limit", "legacy_below_min", "legacy_above_max", "policy_update"],
+    "C04": ["cold_record", "rng_min", "rng_max", "cost_beyond_hard_limit", "legacy_below_min", "legacy_above_max", "policy_update"],
     "C08": ["cold_start", "subst", "delete", "dup", "insert", "truncate", "empty", "other_record", "other_scheme", "swap_fields", "nul", "nonascii",
             "garbage", "numeric_alias", "respell", "as_bytes"],
     "C10": ["restart_via_object", "using_raises", "invalid_item", "policy_file_missing", "policy_file_unreadable", "policy_file_read_error",
@@ -369,7 +369,8 @@ def _gen_policy_program(rng, tier):
             ops.append({"op": k, "user": u, "cat": cat})
         elif k == "import_legacy":
             ops.append({"op": k, "user": u, "scheme": rng.choice(cfg["schemes"]), "pw": rng.choice(PWS), "cat": cat,
-                        "where": rng.choice(["below", "at-min", "inside", "at-max", "above", "hard-min", "any"]), "r": rng.random()})
+                        "where": rng.choice(["below", "at-min", "inside", "at-max", "above", "hard-min", "any"]), "r": rng.random(),
+                        "known": rng.random() < 0.2})
         elif k == "policy_update":
             d = _delta(rng, cfg)
             if d:
@@ -672,6 +673,14 @@ class _PolicyRun:
             return
         f = self.facts[s]
         kw = {}
+        from simkit.refmodels.known_hashes import KNOWN, PW
+
+        if op.get("known") and s in KNOWN and self.model.attribute(KNOWN[s]) == s:
+            # a record written by an earlier process (a constant): nothing of this scheme has been hashed in this process yet
+            self.table[op["user"]] = (KNOWN[s], PW)
+            self.ctx.fault("cold_record")
+            self.op_needs_update({"user": op["user"], "cat": op["cat"]})
+            return
         if f.has_rounds:
             lo, hi = self.model.window(s, op["cat"])
             cl, ch, step = COSTED[s]
